@@ -426,7 +426,12 @@ func init() {
 		if e.node.kind != nFile {
 			return tuple{[]value(nil), fr.pathError("read", a[0], eISDIR)}
 		}
-		return tuple{fr.strToBytes(normStr(e.node.content)), nilErr}
+		c := normStr(e.node.content)
+		if _, ok := c.(string); ok {
+			return tuple{fr.strToBytes(c), nilErr}
+		}
+		// symbolic content: immutable string-backed byte slice (no forking on the length)
+		return tuple{symBytes{c, nil}, nilErr}
 	})
 	register("os.WriteFile", func(fr *frame, a []value) value {
 		f, err := fr.fsOpen(a[0], true, false, true, true, "writefile")
@@ -766,15 +771,33 @@ func (fr *frame) dirEntries(d *fsDir) []value {
 	if allConcrete {
 		sort.Slice(es, func(i, j int) bool { return cstr(es[i].name) < cstr(es[j].name) })
 	} else {
-		// insertion sort with symbolic comparisons
-		for i := 1; i < len(es); i++ {
-			for j := i; j > 0; j-- {
-				if !fr.truth(mkBool(strLtTerm(es[j].name, es[j-1].name))) {
-					break
-				}
-				es[j], es[j-1] = es[j-1], es[j]
+		// Entries with symbolic names (content digests): concrete names first (sorted), then the
+		// digest-named entries ordered by their abstract rank. Only audit code lists such
+		// directories; nothing in the code under test depends on this order.
+		var conc, symb []*fsEntry
+		for _, e := range es {
+			if _, ok := normStr(e.name).(string); ok {
+				conc = append(conc, e)
+			} else {
+				symb = append(symb, e)
 			}
 		}
+		sort.Slice(conc, func(i, j int) bool { return cstr(conc[i].name) < cstr(conc[j].name) })
+		for i := 1; i < len(symb); i++ {
+			for j := i; j > 0; j-- {
+				var lt *smt.Term
+				if ox, oy := fr.run().digestOrd(symb[j].name), fr.run().digestOrd(symb[j-1].name); ox != nil && oy != nil {
+					lt = smt.Lt(ox, oy)
+				} else {
+					lt = strLtTerm(symb[j].name, symb[j-1].name)
+				}
+				if !fr.truth(mkBool(lt)) {
+					break
+				}
+				symb[j], symb[j-1] = symb[j-1], symb[j]
+			}
+		}
+		es = append(conc, symb...)
 	}
 	out := make([]value, len(es))
 	for i, e := range es {
@@ -789,6 +812,9 @@ func (fr *frame) drain(r iface) (value, value) {
 		panic(runtimeError("nil io.Reader"))
 	}
 	if p, ok := r.v.(*value); ok {
+		if p == nil {
+			return "", fr.globalErr("os", "ErrInvalid")
+		}
 		if of := fr.fileOf(p); of != nil {
 			if of.closed {
 				return "", fr.pathError("read", of.path, eINVAL)
@@ -804,6 +830,9 @@ func (fr *frame) drain(r iface) (value, value) {
 			}
 			of.eof = true
 			return of.node.content, nilErr
+		}
+		if ps, ok := fr.run().objs[fmt.Sprintf("pipe:%p", p)].(*pipeState); ok {
+			return fr.drainPipe(ps)
 		}
 		if mr, ok := fr.run().objs[fmt.Sprintf("reader:%p", p)].(*memReader); ok {
 			if mr.done {
